@@ -599,3 +599,32 @@ def frontend(dev):
 
 def crc_a(data):
     return ref_crc.add_a(data)
+
+
+def record_ciu(chip, answer=None):
+    """RF-side view of the direct-CIU transmit path of one Pn53xChip
+    instance (opt-in, per instance; chips without it behave as before).
+
+    Every byte the host writes to CIU_FIFOData is kept by the chip in
+    ``ciu_tx``.  After this call the bytes written since the previous receive
+    / transceive trigger are cut off at each trigger and appended as one
+    ``bytes`` object to ``chip.ciu_frames`` - what the CIU put on the air
+    before it started to listen.  ``answer(frame)``, if given, is the RF
+    partner: it returns the FIFO content the CIU will hold after the receive
+    (see ``parity_fifo``), or b"" / None for silence; it replaces
+    ``chip.ciu_rx`` for that trigger.  Returns the list ``chip.ciu_frames``.
+    """
+    chip.ciu_frames = []
+    inner = chip.write_reg
+
+    def write_reg(addr, val):
+        trigger = inner(addr, val)
+        if trigger and chip.ciu_tx:
+            frame = bytes(chip.ciu_tx)
+            chip.ciu_tx = []
+            chip.ciu_frames.append(frame)
+            if answer is not None:
+                chip.ciu_rx = bytes(answer(frame) or b"")
+        return trigger
+    chip.write_reg = write_reg
+    return chip.ciu_frames
